@@ -332,6 +332,8 @@ where
     /// use [`LoRa::prepare_for_rx`].
     pub async fn rx_switch_channel(&mut self, frequency_in_hz: u32) -> Result<(), RadioError> {
         if let RadioMode::Receive(listen_mode) = self.radio_mode {
+            // in duty cycle mode the chip may be in its sleep phase: wake it first
+            self.radio_kind.ensure_ready(self.radio_mode).await?;
             self.radio_kind.set_standby().await?;
             self.radio_kind.set_channel(frequency_in_hz).await?;
             self.radio_kind.do_rx(listen_mode).await
@@ -344,6 +346,8 @@ where
     /// Call [`LoRa::complete_rx`] to wait and handle result.
     pub async fn start_rx(&mut self) -> Result<(), RadioError> {
         if let RadioMode::Receive(listen_mode) = self.radio_mode {
+            // an earlier duty cycle reception may have left the chip in its sleep phase
+            self.radio_kind.ensure_ready(self.radio_mode).await?;
             self.radio_kind.do_rx(listen_mode).await
         } else {
             Err(RadioError::InvalidRadioMode)
@@ -360,7 +364,12 @@ where
         packet_params: &PacketParams,
         receiving_buffer: &mut [u8],
     ) -> Result<(u8, PacketStatus), RadioError> {
-        if let RadioMode::Receive(_) = self.radio_mode {
+        if let RadioMode::Receive(rx_mode) = self.radio_mode {
+            // In duty cycle mode the chip sleeps between its listen windows and
+            // must not be polled over SPI before it signals an event.
+            if let RxMode::DutyCycle(_) = rx_mode {
+                self.wait_for_irq().await?;
+            }
             loop {
                 match self.radio_kind.process_irq_event(self.radio_mode, None, true).await {
                     Ok(Some(actual_state)) => match actual_state {
